@@ -28,15 +28,22 @@ def _run_one(shard):
 
 
 def _pool_map(mod, shards, workers):
+    """Shards marked {"in_parent": true} run in this process (they start real joblib workers, which
+    daemonic pool workers may not), concurrently with the pool working on the others."""
     global _MOD
     _MOD = mod
-    if workers <= 1 or len(shards) <= 1:
-        for s in shards:
+    mine = [s for s in shards if isinstance(s, dict) and s.get("in_parent")]
+    rest = [s for s in shards if not (isinstance(s, dict) and s.get("in_parent"))]
+    if workers <= 1 or len(rest) <= 1:
+        for s in rest + mine:
             yield _run_one(s)
         return
     ctx = mp.get_context("fork")
-    with ctx.Pool(min(workers, len(shards))) as pool:
-        for r in pool.imap_unordered(_run_one, shards, chunksize=1):
+    with ctx.Pool(min(workers, len(rest))) as pool:
+        it = pool.imap_unordered(_run_one, rest, chunksize=1)     # dispatched eagerly by the pool's threads
+        for s in mine:
+            yield _run_one(s)
+        for r in it:
             yield r
 
 
